@@ -142,7 +142,14 @@ class _PendingCompoundStmt(PendingNode[T]):
 
         converting: list[expr] = []
         stack = [converting]
+        dead = False
         for node in branch:
+            if dead:
+                # nodes after an "interrupt operation" never run: they are still
+                # converted, so that unsupported ones are rejected, but discarded
+                yield node
+                continue
+
             if get_interrupt_cnt() > initial_interrupt_cnt:
                 converting = []
                 stack.append(converting)
@@ -151,9 +158,7 @@ class _PendingCompoundStmt(PendingNode[T]):
             converting.extend((yield node))
 
             if isinstance(node, (Break, Continue, Return)):
-                # remove nodes after an "interrupt operation"
-                # since they never run
-                break
+                dead = True
 
         while len(stack) > 1:
             # wrap nodes with an "if" to check interrupt at run time
